@@ -351,11 +351,18 @@ Definition merge_chan (cs : list chan_sum) (a : chan) : list chan_sum :=
 Definition tagg_add (t : tagg) (a : tnode) : tagg :=
   mkTA (tn_add (ta_num t) (tn_num a)) (ta_paused t || tn_paused a) (ta_nodes t ++ [(tn_node a, tn_host a)])
        (fold_left merge_chan (nonnil (tn_chans a)) (ta_chans t)).
-(* in the handler goroutine: a nil channel is dereferenced (aChannelStats.ChannelName) *)
-Definition tagg_add_g (t : tagg) (a : tnode) : res tagg :=
-  bind (fold_res (fun cs pc => match pc with Some c => Ok (merge_chan cs c) | None => Recovered end) (tn_chans a) (ta_chans t))
-       (fun cs => Ok (mkTA (tn_add (ta_num t) (tn_num a)) (ta_paused t || tn_paused a)
-                           (ta_nodes t ++ [(tn_node a, tn_host a)]) cs)).
+(* in the handler goroutine, with the pointers explicit.  t.Channels may come to hold a nil:
+   `for _, aChannelStats := range a.Channels { for _, channelStats := range t.Channels {
+   if aChannelStats.ChannelName == channelStats.ChannelName ...` dereferences both pointers,
+   but only when t.Channels is not empty; a nil channel met while t.Channels is still empty is
+   appended undereferenced, after which any further channel panics.  State: the channels
+   merged so far and whether t.Channels holds that nil. *)
+Definition merge_g (st : list chan_sum * bool) (pc : option chan) : res (list chan_sum * bool) :=
+  if snd st then Recovered
+  else match pc with
+       | Some c => Ok (merge_chan (fst st) c, false)
+       | None => match fst st with [] => Ok ([], true) | _ => Recovered end
+       end.
 Definition tagg_zero : tagg := mkTA tn_zero false [] [].
 
 (* ------------------------------------------------------------------ the views *)
@@ -391,7 +398,11 @@ Definition two_stage {V : Type} (producers : agg (list pinfo))
 Definition topic_view (producers : agg (list pinfo)) (stats_of : pinfo -> fetch (list (option topic))) (t : bytes)
   : res (view tagg) :=
   two_stage producers stats_of t (fun st w =>
-    bind (fold_res tagg_add_g (fst st) tagg_zero) (fun a => Ok (VOk a w))).
+    (* the nodes in order, each node's channels in order; the counters, paused flag and node
+       list do not depend on the channel pointers *)
+    let p := fold_left tagg_add (fst st) tagg_zero in
+    bind (fold_res merge_g (flat_map tn_chans (fst st)) ([], false)) (fun r =>
+    Ok (VOk (mkTA (ta_num p) (ta_paused p) (ta_nodes p) (fst r)) w))).
 
 (* /api/topics/:topic/:channel: channelStats[channelName] of a nil map entry is dereferenced *)
 Definition channel_view (producers : agg (list pinfo)) (stats_of : pinfo -> fetch (list (option topic))) (t c : bytes)
@@ -493,6 +504,10 @@ Fixpoint cs_find (k : bytes) (cs : list chan_sum) : option chan_sum :=
   | s :: r => if bytes_eqb (cs_name s) k then Some s else cs_find k r
   end.
 
-Definition has_null_chan (nodes : list tnode) : bool := existsb (fun a => existsb is_nil (tn_chans a)) nodes.
+(* the topic view panics (recovered: 500) iff the selected topic's channel lists, taken together,
+   contain a null and are not just that single null *)
+Definition chans_seq (nodes : list tnode) : list (option chan) := flat_map tn_chans nodes.
+Definition null_chan_panics (nodes : list tnode) : bool :=
+  existsb is_nil (chans_seq nodes) && negb (match chans_seq nodes with [None] => true | _ => false end).
 
 Definition ne_keys (l : list nentry) : list bytes := map (fun e => tcp_addr (ne_prod e)) l.
